@@ -309,10 +309,10 @@ def shortest_path_history(ctx, rng):
                 st.grid[wy, wx] = Floor()
                 st.grid[fy, fx] = Wall()
             questions.append((s_b, Action.MOVE_FORWARD, ns_b))
-    reward_fs.dijkstra.cache_clear()
+    getattr(reward_fs.dijkstra, 'cache_clear', lambda: None)()
     truth = []
     for q in questions:
-        reward_fs.dijkstra.cache_clear()
+        getattr(reward_fs.dijkstra, 'cache_clear', lambda: None)()
         truth.append(call_real(fn, *q))
     for rep in range(3):
         order = list(range(len(questions)))
@@ -335,10 +335,10 @@ def ray_history(ctx, rng):
         h, w = rng.randint(1, 6), rng.randint(1, 6)
         s, _ = gen.rand_state(rng, [Floor, Wall, Door], gen.COLORS, shape=(h, w))
         qs.append((s.grid, Position(rng.randrange(h), rng.randrange(w))))
-    rt.cached_compute_rays_fancy.cache_clear()
+    getattr(rt.cached_compute_rays_fancy, 'cache_clear', lambda: None)()
     truth = []
     for g, p in qs:
-        rt.cached_compute_rays_fancy.cache_clear()
+        getattr(rt.cached_compute_rays_fancy, 'cache_clear', lambda: None)()
         truth.append(vis(g, p).tolist())
     for rep in range(2):
         order = list(range(len(qs)))
